@@ -312,6 +312,23 @@ Theorem C09_required_keyword_present : forall strict schema conf vs key k,
 Proof. exact required_keyword_present. Qed.
 Print Assumptions C09_required_keyword_present.
 
+(* parse modes on one parser object: a keyword looked up with parse_required and absent from the text is an error
+   exactly when no earlier call on that object marked it (value read or default assigned) - always on a fresh
+   object; without parse_required the default is assigned iff parse_override is given or the key was not set before *)
+Theorem C09_parse_modes :
+  (forall st ovr conf key,
+     ksv_found (key_string_values conf key) = false -> ksv_data (key_string_values conf key) = [] ->
+     ko_err (snd (kv_call st true ovr conf key)) = ksv_err (key_string_values conf key) || negb (kv_set st) /\
+     fst (kv_call st true ovr conf key) = st) /\
+  (forall v ovr conf key,
+     ksv_found (key_string_values conf key) = false -> ksv_data (key_string_values conf key) = [] ->
+     ko_err (snd (kv_call {| kv_set := false; kv_val := v |} true ovr conf key)) = true) /\
+  (forall st ovr conf key,
+     ksv_found (key_string_values conf key) = false -> ksv_data (key_string_values conf key) = [] ->
+     ko_val (snd (kv_call st false ovr conf key)) = (if ovr || negb (kv_set st) then KvDefault else kv_val st)).
+Proof. split; [exact kv_required_missing|split; [exact kv_required_missing_fresh|exact kv_default_rule]]. Qed.
+Print Assumptions C09_parse_modes.
+
 (* 3-vectors "( x , y , z )", quaternions and vector values: accepted iff the text is one parenthesised tuple of n
    numbers (read by extract_tuple: '(' number {',' number} ')' with optional white space) and nothing but white
    space follows; the numbers themselves are literals by C09_scalar_value_strict's scanner *)
